@@ -134,42 +134,7 @@ theorem lex_bracketKey (k rest : List Char) (fuel : Nat) (hf : k.length ≤ fuel
       = '[' :: '"' :: (escapeJqString k ++ '"' :: ']' :: rest) := by simp [Comp.toJq]
   rw [this, lex_open_bracket, lex_quoted_key k _ (fuel + 1) (by omega), lex_close_bracket]
 
-/-! ### ASCII: Rust's Unicode classes are Lean's ASCII classes -/
-
-theorem inRanges_eq_false_of_all_gt (L : List Int) (b n : Nat)
-    (h : L.all (fun x => decide ((b : Int) < x)) = true) (hn : n ≤ b) : inRanges L n = false := by
-  fun_induction inRanges L n with
-  | case1 lo hi rest cp ih =>
-    simp only [List.all_cons, Bool.and_eq_true, decide_eq_true_eq] at h
-    rw [ih h.2.2 hn]
-    have : ¬ (lo ≤ (cp : Int)) := by omega
-    simp [this]
-  | case2 => rfl
-
-theorem alpha_tail_gt : (Gen.UNICODE_ALPHABETIC_RANGES_L.drop 4).all (fun x => decide (((127 : Nat) : Int) < x)) = true := by
-  decide +kernel
-
-theorem numeric_tail_gt : (Gen.UNICODE_NUMERIC_RANGES_L.drop 2).all (fun x => decide (((127 : Nat) : Int) < x)) = true := by
-  decide +kernel
-
-theorem alpha_unfold (n : Nat) : inRanges Gen.UNICODE_ALPHABETIC_RANGES_L n =
-    ((decide ((65 : Int) ≤ (n : Int)) && decide ((n : Int) ≤ 90)) ||
-      ((decide ((97 : Int) ≤ (n : Int)) && decide ((n : Int) ≤ 122)) ||
-        inRanges (Gen.UNICODE_ALPHABETIC_RANGES_L.drop 4) n)) := rfl
-
-theorem numeric_unfold (n : Nat) : inRanges Gen.UNICODE_NUMERIC_RANGES_L n =
-    ((decide ((48 : Int) ≤ (n : Int)) && decide ((n : Int) ≤ 57)) ||
-        inRanges (Gen.UNICODE_NUMERIC_RANGES_L.drop 2) n) := rfl
-
-theorem alpha_ascii (n : Nat) (hn : n < 128) :
-    inRanges Gen.UNICODE_ALPHABETIC_RANGES_L n = decide (65 ≤ n ∧ n ≤ 90 ∨ 97 ≤ n ∧ n ≤ 122) := by
-  rw [alpha_unfold, inRanges_eq_false_of_all_gt _ 127 n alpha_tail_gt (by omega)]
-  rw [Bool.eq_iff_iff]; simp; omega
-
-theorem numeric_ascii (n : Nat) (hn : n < 128) :
-    inRanges Gen.UNICODE_NUMERIC_RANGES_L n = decide (48 ≤ n ∧ n ≤ 57) := by
-  rw [numeric_unfold, inRanges_eq_false_of_all_gt _ 127 n numeric_tail_gt (by omega)]
-  rw [Bool.eq_iff_iff]; simp; omega
+/-! ### ASCII character classes -/
 
 theorem char_isAlpha_eq (c : Char) :
     c.isAlpha = decide (65 ≤ c.toNat ∧ c.toNat ≤ 90 ∨ 97 ≤ c.toNat ∧ c.toNat ≤ 122) := by
@@ -183,15 +148,6 @@ theorem jq_isDigit_eq (c : Char) :
     isDigit c = decide (48 ≤ c.toNat ∧ c.toNat ≤ 57) := by
   simp [isDigit, Char.le_def, UInt32.le_iff_toNat_le]
 
-
-theorem isAlphabetic_ascii (c : Char) (h : c.toNat < 128) : isAlphabetic c = c.isAlpha := by
-  rw [isAlphabetic, alpha_ascii _ h, char_isAlpha_eq]
-
-theorem isNumeric_ascii (c : Char) (h : c.toNat < 128) : isNumeric c = c.isDigit := by
-  rw [isNumeric, numeric_ascii _ h, char_isDigit_eq]
-
-theorem isAlphanumeric_ascii (c : Char) (h : c.toNat < 128) : isAlphanumeric c = c.isAlphanum := by
-  rw [isAlphanumeric, isAlphabetic_ascii c h, isNumeric_ascii c h, Char.isAlphanum]
 
 theorem takeWhileL_append (f : Char → Bool) (k rest : List Char)
     (hk : ∀ c ∈ k, f c = true) (hrest : ∀ c, rest.head? = some c → f c = false) :
@@ -214,9 +170,8 @@ theorem isIdStart_not_digit (c : Char) (h : isIdStart c = true) : isDigit c = fa
   · simp; omega
   · subst h; decide
 
-/-- `.k` for an ASCII key accepted by `can_use_dot_notation` is lexed as the field token `k`. -/
+/-- `.k` for a key accepted by `can_use_dot_notation` is lexed as the field token `k`. -/
 theorem dot_notation_sound (k rest : List Char) (h : canUseDotNotation k = true)
-    (hascii : ∀ c ∈ k, c.toNat < 128)
     (hrest : ∀ c, rest.head? = some c → isIdChar c = false)
     (fuel depth : Nat) (interp : Bool) (acc : List Tok) :
     lex (fuel + 1) ('.' :: (k ++ rest)) depth interp acc
@@ -224,47 +179,43 @@ theorem dot_notation_sound (k rest : List Char) (h : canUseDotNotation k = true)
   cases k with
   | nil => simp [canUseDotNotation] at h
   | cons c k =>
-    have hc128 : c.toNat < 128 := hascii c (by simp)
     simp only [canUseDotNotation] at h
-    have hstart : isIdStart c = true := by
-      rw [isIdStart, ← isAlphabetic_ascii c hc128]
-      revert h; cases isAlphabetic c <;> cases hcu : (c == '_') <;> simp [bne, hcu]
-    have hall : ∀ d ∈ c :: k, isIdChar d = true := by
-      intro d hd
-      rcases List.mem_cons.1 hd with rfl | hd
-      · revert hstart; simp only [isIdStart, isIdChar, Char.isAlphanum]
-        cases d.isAlpha <;> simp <;> exact fun h => Or.inr h
-      · have h2 : (k.all fun c => isAlphanumeric c || c == '_') = true := by
-          revert h; split <;> simp
-        have := List.all_eq_true.1 h2 d hd
-        rwa [isAlphanumeric_ascii d (hascii d (by simp [hd]))] at this
-    have htake : takeIdent (c :: (k ++ rest)) = (c :: k, rest) :=
-      takeWhileL_append isIdChar (c :: k) rest hall hrest
-    have hdig : isDigit c = false := isIdStart_not_digit c hstart
-    have hdot : isDigit '.' = false := by decide
-    rw [lex.eq_def]
-    simp [hdig, hstart, htake, hdot]
-
+    split at h
+    · cases h
+    · rename_i hfirst
+      have hstart : isIdStart c = true := by
+        simp only [isIdStart]
+        cases hA : c.isAlpha <;> cases hU : (c == '_') <;> simp_all
+      have h2 : (k.all fun c => c.isAlphanum || c == '_') = true := by
+        simp only [Bool.and_eq_true] at h; exact h.1
+      have hall : ∀ d ∈ c :: k, isIdChar d = true := by
+        intro d hd
+        rcases List.mem_cons.1 hd with rfl | hd
+        · revert hstart; simp only [isIdStart, isIdChar, Char.isAlphanum]
+          cases d.isAlpha <;> simp <;> exact fun h => Or.inr h
+        · exact List.all_eq_true.1 h2 d hd
+      have htake : takeIdent (c :: (k ++ rest)) = (c :: k, rest) :=
+        takeWhileL_append isIdChar (c :: k) rest hall hrest
+      have hdig : isDigit c = false := isIdStart_not_digit c hstart
+      have hdot : isDigit '.' = false := by decide
+      rw [lex.eq_def]
+      simp [hdig, hstart, htake, hdot]
 
 /-- the same for the printed component -/
 theorem lex_dotKey (k rest : List Char) (h : canUseDotNotation k = true)
-    (hascii : ∀ c ∈ k, c.toNat < 128)
     (hrest : ∀ c, rest.head? = some c → isIdChar c = false)
     (fuel depth : Nat) (interp : Bool) (acc : List Tok) :
     lex (fuel + 1) (Comp.toJq (.dotKey k) ++ rest) depth interp acc
       = lex fuel rest depth interp (.field (String.ofList k) :: acc) :=
-  dot_notation_sound k rest h hascii hrest fuel depth interp acc
+  dot_notation_sound k rest h hrest fuel depth interp acc
 
-/-! ### the side conditions are needed -/
+/-! ### regression witnesses of the repaired findings C28-F1 / C28-F2 -/
 
-/-- a non-ASCII letter is accepted by `can_use_dot_notation` … -/
-theorem canUseDotNotation_eacute : canUseDotNotation ['é'] = true := by decide +kernel
-/-- … but `.é` is not a jq token sequence (jq identifiers are ASCII) -/
+/-- a non-ASCII letter is no longer accepted (C28-F2) – and indeed `.é` is not a jq program -/
+theorem canUseDotNotation_eacute : canUseDotNotation ['é'] = false := by decide +kernel
 theorem tokenize_dot_eacute : tokenize ".é" = none := by decide +kernel
-
-/-- reserved words pass `can_use_dot_notation` … -/
-theorem canUseDotNotation_then : canUseDotNotation "then".toList = true := by decide +kernel
-/-- … and the lexer reads `.then` as a field token (no keyword check after a dot) -/
-theorem tokenize_dot_then : tokenize ".then" = some [.field "then"] := by rfl
+/-- reserved words go to bracket notation (C28-F1) -/
+theorem canUseDotNotation_then : canUseDotNotation "then".toList = false := by decide +kernel
+theorem canUseDotNotation_foo : canUseDotNotation "foo_1".toList = true := by decide +kernel
 
 end SV.JsonLocate
